@@ -468,10 +468,12 @@ fn main() {
             }
             "hdr" => n_hdr += check_hdr_table(&c["cases"], &mut rep),
             "wcases" => {
-                for (k, w) in c["cases"].as_array().unwrap().iter().enumerate() {
+                for w in c["cases"].as_array().unwrap().iter() {
+                    // salt from the case's content, so that a single case replays identically
+                    let k = w.to_string().bytes().fold(7u64, |a, b| a.wrapping_mul(131).wrapping_add(b as u64)) % 1000;
                     for s in 0..3u64 {
                         n_w += 1;
-                        if let Some(what) = check_wcase(&g, w, case_salt(seed, 900_000 + k as u64, s)) {
+                        if let Some(what) = check_wcase(&g, w, case_salt(seed, 900_000 + k, s)) {
                             rep.bad(json!({"kind": "wcase", "case": w, "sample": s, "what": what}));
                         }
                     }
